@@ -226,16 +226,28 @@ def lib_sources(root):
         glob.glob(os.path.join(root, 'work', 'lib', 'src', '*', 'workspace'))
 
 
-def sync_sources(root, st):
-    """the user's edits of the lib sources (project state outside the recipes)"""
-    n = st.get('srcedit', 0)
-    for ws in lib_sources(root):
-        p = os.path.join(ws, 'user.txt')
-        if n:
-            with open(p, 'w') as f:
-                f.write('user edit %d\n' % n)
-        elif os.path.exists(p):
-            os.unlink(p)
+def user_edit(w, st, release, n):
+    """the user edits the lib sources NOW: a file is added to every lib source workspace that exists (after checking the
+    sources out first if there are none yet -- as a user would)"""
+    if not lib_sources(w.root):
+        o = invoke(w, st, release, ['-B'])
+        if o[0] != 'ok':
+            raise V.HarnessGap('checkout-only pass failed')
+    for ws in lib_sources(w.root):
+        with open(os.path.join(ws, 'user.txt'), 'w') as f:
+            f.write('user edit %d\n' % n)
+
+
+def current_user_txt(w):
+    """what the user's file holds in the lib source workspace the last invocation worked with (None: no such file)"""
+    for key, ws in getattr(w, 'visited', []):
+        if key == 'lib/src':
+            try:
+                with open(os.path.join(w.root, ws, 'user.txt')) as f:
+                    return f.read()
+            except OSError:
+                return None
+    return None
 
 
 async def fake_run(self, args, cwd, stdout=None, stderr=None, check=False, **kw):
@@ -430,17 +442,6 @@ def close_handles(killed):
 
 def invoke(w, st, release, extra=()):
     """one Bob invocation; returns ('ok'|'error'|'killed', dist outputs {package: token}, residues)"""
-    if st.get('srcedit') and not lib_sources(w.root) and '-B' not in extra and w.fault is None:
-        # the edited sources have to exist before they can be edited: check out first (as a user would)
-        o = _invoke(w, st, release, tuple(x for x in extra if not x.startswith('--download') and x != '--upload') + ('-B',))
-        if o[0] != 'ok':
-            return o
-    os.makedirs(w.root, exist_ok=True)
-    sync_sources(w.root, st)
-    return _invoke(w, st, release, extra)
-
-
-def _invoke(w, st, release, extra=()):
     World.cur = w
     w.execs = []
     w.saves = 0
@@ -514,8 +515,17 @@ def fresh(name):
     return d
 
 
-def clean_build(st, release):
+def clean_build(st, release, src=None):
+    """from-scratch build of the project state; src = content of the user's file in the lib sources (sources are part of the
+    project state, but not of the recipes)"""
     w = World(fresh('clean'))
+    if src is not None:
+        o = invoke(w, st, release, ['-B'])
+        if o[0] != 'ok':
+            raise V.HarnessGap('clean checkout failed: ' + o[0])
+        for ws in lib_sources(w.root):
+            with open(os.path.join(ws, 'user.txt'), 'w') as f:
+                f.write(src)
     o, outs, res = invoke(w, st, release)
     if o != 'ok':
         raise V.HarnessGap('clean build failed: ' + o)
@@ -555,6 +565,8 @@ def history(edits, release, fault_inv, fault_kind, fault_arg):
         seq = [0] + list(edits)
         for idx, e in enumerate(seq):
             st = apply_edit(st, e)
+            if e == 11:
+                user_edit(w, st, release, st['srcedit'])
             if idx == fault_inv:
                 w.audits = 0
                 w.fault = [('fail', STEP_KEYS[fault_arg % 8]), ('kill', STEP_KEYS[fault_arg % 8]), ('save', fault_arg + 1),
@@ -572,7 +584,7 @@ def history(edits, release, fault_inv, fault_kind, fault_arg):
             v = audit_check(w)             # (relative workspace paths: must run before the clean build changes directory)
             if v:
                 return False, v
-            want = clean_build(st, release)
+            want = clean_build(st, release, current_user_txt(w))
             if 'app' not in outs or 'out.txt' not in outs['app']:
                 raise V.HarnessGap('no result of the root package found')
             if outs != want:
@@ -730,11 +742,13 @@ def archive_history(e1, fresh2, d2, u2, e2, d3, fault, d4):
             raise V.HarnessGap('nothing was uploaded')
         w = World(fresh('projB')) if fresh2 else wa
         st = apply_edit(st, e1)
+        if e1 == 11:
+            user_edit(w, st, False, st['srcedit'])
 
         def verify(o, outs, what):
             if o != 'ok':
                 return 'invocation-failed-' + o + what
-            want = clean_build({k: v for k, v in st.items() if k != 'archive'}, False)
+            want = clean_build({k: v for k, v in st.items() if k != 'archive'}, False, current_user_txt(w))
             if 'app' not in outs or 'out.txt' not in outs['app']:
                 raise V.HarnessGap('no result of the root package found')
             if outs.get('app') != want['app']:
@@ -769,6 +783,8 @@ def archive_history(e1, fresh2, d2, u2, e2, d3, fault, d4):
             if any(k.endswith('/build') or k.endswith('/dist') for k in ex2):
                 return False, 'build-step-executed-although-artifact-available'
         st = apply_edit(st, e2)
+        if e2 == 11:
+            user_edit(w, st, False, st['srcedit'])
         if fault >= 0:
             w.fault = ('fail', STEP_KEYS[fault])
             o, outs, res = invoke(w, st, False, ['--download=' + DMODES[d3]])
